@@ -5,7 +5,7 @@ From Coq Require Import ZArith List Bool Reals Lia Lra.
 From FT.lib Require Import Num Arr ArrLemmas Lower NumArr.
 From FT.gen Require Import Common Interp2d Interp3d Vinterp2d Vinterp3d FteikCommon Fteik2d Fteik3d Ray2d Ray3d.
 From FT.proofs Require Import Sweep2dProofs LayeredR.
-From FT.proofs Require InitSym.
+From FT.proofs Require InitSym OperatorsR Operators3R.
 Import ListNotations.
 Open Scope R_scope.
 
@@ -52,6 +52,33 @@ Theorem C02_layered_grid_line_upper :
        (0 <= j <= nx - 1)%Z ->
        get 0 tt [i0; j] = 0 -> get 0 tt [(i0 + Z.of_nat n)%Z; j] <= zsum (fun c : Z => dz * s c) i0 n.
 Proof. exact @LayeredR.layered_grid_line_upper. Qed.
+
+(* which cell's slowness each operator of the generated 2D node update reads: the written value is min(old, 1D with the minimum over the two cells adjoining the edge, 2D with the upwind cell slow[i1, j1]) - spelled out in terms of named functions of the neighbours and of those cells *)
+Theorem C02_node_update_2d_reads_these_cells :
+  forall (tt : arr R) (ttsgn : arr Z) (slow : arr R) (dz dx dzi dxi dz2i dx2i zsi xsi zsa xsa vzero : R)
+         (i j sgnvz sgnvx sgntz sgntx nz nx : Z) (grad : bool),
+       fst
+         (Fteik2d.sweep tt ttsgn slow (dz, dx, dzi, dxi, dz2i, dx2i) zsi xsi zsa xsa vzero i j sgnvz sgnvx sgntz sgntx
+            nz nx grad) =
+       set tt [i; j]
+         (pymin3 (get 0 tt [i; j]) (OperatorsR.t1d tt slow dz dx i j sgnvz sgnvx sgntz sgntx nz nx)
+            (OperatorsR.sweep_t2d tt slow dz dx dzi dxi dz2i dx2i zsi xsi zsa xsa vzero i j sgnvz sgnvx sgntz sgntx)).
+Proof. exact @OperatorsR.sweep_tt_eq. Qed.
+
+(* 3D: 1D operators with the minimum over the four cells adjoining the edge, plane operators with the minimum over the two cells adjoining the face (clamped at the far faces by ny-2 / nx-2 / nz-2 of the RIGHT axis), 8-point operator with the upwind cell *)
+Theorem C02_node_update_3d_reads_these_cells :
+  forall (tt : arr R) (ttsgn : arr Z) (slow : arr R) (dz dx dy dz2i dx2i dy2i dzxi dzyi dxyi dsum : R)
+         (i j k sgnvz sgnvx sgnvy sgntz sgntx sgnty nz nx ny : Z) (grad : bool),
+       fst
+         (sweep tt ttsgn slow (dz, dx, dy, dz2i, dx2i, dy2i, dzxi, dzyi, dxyi, dsum) i j k sgnvz sgnvx sgnvy sgntz
+            sgntx sgnty nz nx ny grad) =
+       set tt [i; j; k]
+         (pymin4 (get 0 tt [i; j; k])
+            (Operators3R.t1d tt slow dz dx dy i j k sgnvz sgnvx sgnvy sgntz sgntx sgnty nz nx ny)
+            (Operators3R.sweep_t2d tt slow dz dx dy dz2i dx2i dy2i i j k sgnvz sgnvx sgnvy sgntz sgntx sgnty nz nx ny)
+            (Operators3R.sweep_t3d tt slow dz dx dy dz2i dx2i dy2i dzxi dzyi dxyi dsum i j k sgnvz sgnvx sgnvy sgntz
+               sgntx sgnty nz nx ny)).
+Proof. exact @Operators3R.sweep_tt_eq. Qed.
 
 (* off-node sources: the generated source-line initialisation is (by conversion) corners + east, west, down, up phases; the east phase accumulates slow[zsi, j-1] for the edge between nodes j-1 and j *)
 Theorem C02_init_is_four_copies :
@@ -172,6 +199,8 @@ Proof. exact @InitSym.up_is_mirror_of_down_explicit. Qed.
 Print Assumptions C02_column_upper_bound_down.
 Print Assumptions C02_column_upper_bound_up.
 Print Assumptions C02_layered_grid_line_upper.
+Print Assumptions C02_node_update_2d_reads_these_cells.
+Print Assumptions C02_node_update_3d_reads_these_cells.
 Print Assumptions C02_init_is_four_copies.
 Print Assumptions C02_init_west_reads_the_mirror_cells.
 Print Assumptions C02_init_down_reads_the_transposed_cells.
